@@ -17,7 +17,7 @@ RULE = (
     "Programs: a stack of 0-4 entries, each {async CM, sync CM (entered through enter_context), pushed async "
     "exit callable, pushed sync exit callable, pushed CM object, async callback with args, sync callback with "
     "args} x behaviour {falsy, truthy, raise new, raise new only while handling, re-raise the received "
-    "exception, enter fails (CMs)} x block outcome {normal, raises}; the space for <= 2 entries is enumerated "
+    "exception, raise a new BaseException that is not an Exception, enter fails (CMs)} x block outcome {normal, raises}; the space for <= 2 entries is enumerated "
     "completely (every tier), 3-4 entries are sampled by Hypothesis. Reference: the same entries written as "
     "genuinely nested async-with / with statements (callables and callbacks wrapped in a trivial manager). "
     "Compared: the ordered log of (entry, which exception object it received), enters, callback arguments, and "
@@ -34,11 +34,15 @@ ASSUMPTIONS = [
 ]
 
 KINDS = ["acm", "scm", "push-async", "push-sync", "push-cm", "callback-async", "callback-sync"]
-BEHAVIOURS = ["falsy", "truthy", "raise", "raise-if-exc", "reraise"]
+BEHAVIOURS = ["falsy", "truthy", "raise", "raise-if-exc", "reraise", "raise-base"]
 
 
 class New(Exception):
     pass
+
+
+class NewBase(BaseException):
+    """like a cancellation: not an Exception"""
 
 
 class Block(Exception):
@@ -50,7 +54,7 @@ def role(exc, block_exc):
         return None
     if exc is block_exc:
         return "block"
-    if isinstance(exc, New):
+    if isinstance(exc, (New, NewBase)):
         return ("new", exc.args[0])
     return ("other", type(exc).__name__)
 
@@ -63,6 +67,8 @@ def behave(i, behaviour, received):
         return True
     if behaviour == "raise" or (behaviour == "raise-if-exc" and received is not None):
         raise New(i)
+    if behaviour == "raise-base":
+        raise NewBase(i)
     if behaviour == "reraise" and received is not None:
         raise received
     return False
@@ -238,7 +244,7 @@ def entry_space():
         if kind in ("acm", "scm"):
             behaviours.append("enter-fails")
         if kind.startswith("callback"):
-            behaviours = ["falsy", "truthy", "raise"]
+            behaviours = ["falsy", "truthy", "raise", "raise-base"]
         out.extend((kind, b) for b in behaviours)
     return out
 
@@ -271,8 +277,8 @@ def program_nontrivial(case):
 @st.composite
 def histories(draw, tier):
     op = st.one_of(
-        st.tuples(st.just("register"), st.sampled_from(KINDS), st.sampled_from(["falsy", "falsy", "truthy", "raise", "enter-fails"])),
-        st.tuples(st.just("register"), st.sampled_from(KINDS), st.sampled_from(["falsy", "falsy", "truthy", "raise", "enter-fails"])),
+        st.tuples(st.just("register"), st.sampled_from(KINDS), st.sampled_from(["falsy", "falsy", "truthy", "raise", "enter-fails", "raise-base"])),
+        st.tuples(st.just("register"), st.sampled_from(KINDS), st.sampled_from(["falsy", "falsy", "truthy", "raise", "enter-fails", "raise-base"])),
         st.tuples(st.just("aclose")),
         st.tuples(st.just("pop_all"), st.booleans()),
         st.tuples(st.just("leave"), st.booleans()),
